@@ -28,7 +28,8 @@ def closure_tree(prog, root_path, deep=True):
             for tgt in (t.get("resolved"), t.get("callee")):
                 f = prog.fns.get(tgt)
                 if f is not None and tgt in prog._bodies_raw and f.get("vis") != "pub" and f.get("kind") in ("Fn", "AssocFn") \
-                        and "impl_trait" not in f and not mir.strip_generics(tgt).startswith(D + "utils::") and not mir.strip_generics(tgt).startswith(D + "attr::"):
+                        and "impl_trait" not in f and not any(mir.strip_generics(tgt).startswith(D + m) and not mir.strip_generics(root_path).startswith(D + m)
+                                                              for m in ("utils::", "attr::")):
                     work.append(tgt)
         # fn items passed as values (`filter_map(doc_literal)`)
         for i, j, st in b.stmts():
@@ -75,7 +76,54 @@ def recognisers(prog):
                     a0 = unref(ct[2][0])
                     if a0[0] == "str":
                         ns.add(a0[1])
-        out[sp] = {"keys": keys, "ns": ns, "metas": metas, "path": p}
+        out[sp] = {"keys": keys, "ns": ns, "metas": metas, "path": p, "param_keys": set()}
+    # a recogniser may delegate to a helper that takes the identifier as a parameter (`has_codec_flag(attrs, "compact")`):
+    # the helper compares is_ident(<its parameter k>); the caller's constant in position k is then the key
+    for p, f in prog.fns.items():
+        sp = mir.strip_generics(p)
+        if sp not in out:
+            continue
+        for bp in closure_tree(prog, p, deep=False):
+            b = prog.body(bp)
+            root = prog.body(p)
+            for bb, t in b.calls():
+                ct = b.call_term(t, bb=bb)
+                if ct[1]["name"].endswith("syn::path::Path::is_ident") and len(ct[2]) == 2:
+                    a = unref(ct[2][1])
+                    # inside a closure the parameter arrives as a captured variable: resolve it to the root fn's parameter by name
+                    nm = a[2] if a[0] in ("arg", "var") and len(a) > 2 else None
+                    if a[0] == "field" and bp != p and isinstance(a[2], int):
+                        # captured variable number a[2] of this closure: look at what the enclosing function captured
+                        for rbb, rt_ in root.calls():
+                            for ra in rt_["args"]:
+                                for x in mir.walk(root.operand_term(ra)):
+                                    if x[0] == "agg" and x[1] == "closure" and x[2].get("closure") == bp and a[2] < len(x[3]):
+                                        u = unref(x[3][a[2]])
+                                        if u[0] in ("arg", "var") and len(u) > 2:
+                                            nm = u[2]
+                    for i in range(1, root.arg_count + 1):
+                        if nm is not None and root.names.get(i) == nm:
+                            out[sp]["param_keys"].add(i)
+                            for x in mir.walk(ct[2][0]):
+                                if x[0] == "downcast" and x[3] in ("Path", "NameValue", "List"):
+                                    out[sp]["metas"].add(x[3])
+    for sp, rec in out.items():
+        b = prog.body(rec["path"])
+        for bp in closure_tree(prog, rec["path"], deep=False):
+            cb = prog.body(bp)
+            for bb, t in cb.calls():
+                ct = cb.call_term(t, bb=bb)
+                callee = mir.strip_generics(ct[1]["name"])
+                h = out.get(callee)
+                if h is None or not h["param_keys"]:
+                    continue
+                for k in h["param_keys"]:
+                    if k - 1 < len(ct[2]):
+                        a = unref(ct[2][k - 1])
+                        if a[0] == "str":
+                            rec["keys"].add(a[1])
+                            rec["ns"] |= h["ns"]
+                            rec["metas"] |= h["metas"]
     return out
 
 
@@ -110,6 +158,8 @@ def member_iteration_sites(prog):
                     tt = prog.ty(g)
                     if tt["k"] == "adt" and tt["d"] in ("syn::data::Field", "syn::data::Variant") and "punctuated" in (t.get("resolved") or t.get("callee") or ""):
                         elem = tt["d"]
+            if elem is None and mir.strip_generics(ct[1]["name"]) in ("syn::data::Fields::iter", "syn::data::Fields::iter_mut"):
+                elem = "syn::data::Field"     # `fields.iter()` on syn::Fields (all three kinds at once)
             if elem is None:
                 continue
             # skip into_iter(iter(..)) identity wrappers: the inner call is the site
